@@ -255,6 +255,20 @@ func TestC12(t *testing.T) {
 							return nil
 						}})
 				}
+				// the caller drops the whole compress_certificate extension after the first build:
+				// nothing is advertised any more, a compressed certificate must be refused
+				add(advCase{name: "cert_compression_unadvertised(extension removed after build)", max: tls.VersionTLS13, plan: func() *tls.VerifPlan { return compressCertPlan(orig) },
+					edit: func(u *tls.UConn) error {
+						var kept []tls.TLSExtension
+						for _, e := range u.Extensions {
+							if _, ok := e.(*tls.UtlsCompressCertExtension); !ok {
+								kept = append(kept, e)
+							}
+						}
+						u.Extensions = kept
+						return nil
+					},
+					void: func(ch *wire.ClientHello) bool { return ch.Has(wire.ExtCompressCert) }})
 			}
 		}
 		if has12 {
